@@ -298,7 +298,7 @@ class Sched:
             # directed windows: "this task is descheduled at its n-th source line until <condition>" - a schedule every
             # preemptive system can produce, placed deliberately instead of waiting for the random walk to find it
             for pk in self.parks:
-                if pk.get("done") or pk["task"] != me.name:
+                if pk.get("done") or (pk["task"] is not me if not isinstance(pk["task"], str) else pk["task"] != me.name):
                     continue
                 if pk.get("funcs") and kind.split(":")[1] not in pk["funcs"]:
                     continue            # this park counts only the lines of the named functions
